@@ -40,8 +40,19 @@ func init() {
 
 type mseParams struct {
 	xa, xb []byte
-	skeys  [][]byte
+	skeys  [][]byte // keys whose HashSKey the model needs
+	kskeys [][]byte // keys whose RC4 key-streams the model needs (default: skeys)
 	ksn    int
+}
+
+func parseMSEParams(m map[string]string) mseParams {
+	p := mseParams{xa: unhex(m["xa"]), xb: unhex(m["xb"]), skeys: hexList(m["skeys"]), ksn: atoi(m["ksn"])}
+	if _, ok := m["kskeys"]; ok {
+		p.kskeys = hexList(m["kskeys"])
+	} else {
+		p.kskeys = p.skeys
+	}
+	return p
 }
 
 func parseChunks(s string) []int {
@@ -67,7 +78,7 @@ func execMSE(ops []string) []string {
 		m := kv(op)
 		switch m["_"] {
 		case "params":
-			p = mseParams{xa: unhex(m["xa"]), xb: unhex(m["xb"]), skeys: hexList(m["skeys"]), ksn: atoi(m["ksn"])}
+			p = parseMSEParams(m)
 			obs = append(obs, paramsObs(p))
 		case "hs":
 			obs = append(obs, execHS(p, m))
@@ -88,6 +99,8 @@ func paramsObs(p mseParams) string {
 	var hsk, ks []string
 	for _, k := range p.skeys {
 		hsk = append(hsk, hx(k)+":"+hx(refHashSKey(k)))
+	}
+	for _, k := range p.kskeys {
 		ks = append(ks, "a:"+hx(k)+":"+hx(refKS(true, s, k, p.ksn)))
 		ks = append(ks, "b:"+hx(k)+":"+hx(refKS(false, s, k, p.ksn)))
 	}
@@ -362,17 +375,18 @@ func genKey(r *Rng) []byte {
 type mseCase struct {
 	xa, xb []byte
 	skeys  [][]byte
+	kskeys [][]byte
 	run    string
 	need   int // key-stream bytes beyond the 1024 discarded ones
 }
 
 func (c mseCase) ops() []string {
-	var ks []string
-	for _, k := range c.skeys {
-		ks = append(ks, hx(k))
+	kk := c.kskeys
+	if kk == nil {
+		kk = c.skeys
 	}
 	return []string{
-		fmt.Sprintf("params xa=%s xb=%s skeys=%s ksn=%d", hx(c.xa), hx(c.xb), joinOrDash(ks), 1024+c.need+8),
+		fmt.Sprintf("params xa=%s xb=%s skeys=%s kskeys=%s ksn=%d", hx(c.xa), hx(c.xb), hexJoin(c.skeys), hexJoin(kk), 1024+c.need+8),
 		c.run,
 	}
 }
@@ -391,21 +405,31 @@ func genHonest(r *Rng, padA, padB, padC, padD int, ca, cb string, big bool) mseC
 	skey := genKey(r)
 	keysb := [][]byte{skey}
 	liar := false
-	switch r.Intn(12) {
+	switch r.Intn(20) {
 	case 0: // receiver does not know the key
 		keysb = [][]byte{genKey(r)}
 	case 1:
 		keysb = nil
-	case 2: // several keys, the right one last
+	case 2, 3: // several keys, the right one last
 		keysb = [][]byte{genKey(r), genKey(r), skey}
-	case 3: // receiver answers with a different key whatever the hash is
+	case 4: // receiver answers with a different key whatever the hash is
 		keysb = [][]byte{genKey(r), skey}
 		liar = true
 	}
 	c.skeys = append([][]byte{skey}, keysb...)
-	provide := r.PickU(1, 2, 3, 3, 3, 3, 2, 0, 4, 6, 7, 0x80000002, 0x80000000, 0xFFFFFFFF, uint64(r.Intn(16)))
-	sel := []string{"rc4first", "rc4first", "rc4first", "force", "plainfirst", "low", "high", "const:0", "const:1", "const:2", "const:3", "const:4",
-		fmt.Sprintf("const:%d", r.PickU(8, 5, 0x80000000, 0xFFFFFFFF))}[r.Intn(13)]
+	c.kskeys = [][]byte{skey}
+	if liar {
+		c.kskeys = append(c.kskeys, keysb[0])
+	}
+	// mostly valid offers and selection functions; ~25 % malformed (empty offer, a selection that
+	// is zero / not a single bit / not offered)
+	provide := r.PickU(1, 2, 3, 3, 3, 3, 2, 6, 7, 0x80000002, 0x80000003, 0xFFFFFFFF, uint64(1+r.Intn(15)))
+	sel := []string{"rc4first", "rc4first", "rc4first", "plainfirst", "plainfirst", "low", "high"}[r.Intn(7)]
+	if r.Chance(25) {
+		provide = r.PickU(0, 4, 0x80000000, provide, provide, provide)
+		sel = []string{"force", "const:0", "const:1", "const:2", "const:3", "const:4", "rc4first",
+			fmt.Sprintf("const:%d", r.PickU(8, 5, 0x80000000, 0xFFFFFFFF))}[r.Intn(8)]
+	}
 	if padA < 0 {
 		padA = genPadLen(r)
 	}
@@ -429,7 +453,7 @@ func genHonest(r *Rng, padA, padB, padC, padD int, ca, cb string, big bool) mseC
 	if cb == "" {
 		cb = genChunks(r)
 	}
-	c.need = 14 + 512 + 2 + len(ia) + len(pa) + len(pb)
+	c.need = 14 + padC + padD + 2 + len(ia) + len(pa) + len(pb)
 	c.run = fmt.Sprintf("hs skey=%s keysb=%s liar=%s provide=%d sel=%s ia=%s pada=%s padb=%s padc=%d padd=%d ca=%s cb=%s pa=%s pb=%s rb=%s",
 		hx(skey), hexJoin(keysb), b01(liar), provide, sel, hx(ia), hx(r.Bytes(padA)), hx(r.Bytes(padB)), padC, padD, ca, cb, hx(pa), hx(pb), genChunks(r))
 	return c
